@@ -74,6 +74,8 @@ def reason_holds(v: View, reason, s):
             return True
         if any(e[0] == "poll" and e[2] for e in v.trace):
             return True
+        if any(e[0] == "fault" and e[2] == "AbortRetryError" for e in v.trace):
+            return True  # a callback raised the cooperative-abort exception
         for x in v.segs:
             if x.poll_true:
                 return True
@@ -93,7 +95,7 @@ def reason_holds(v: View, reason, s):
         mu = cfg.get("max_unknown")
         return s.klass == "UNKNOWN" and mu is not None and s.count_u > mu
     if reason == "DEADLINE_EXCEEDED":
-        if s.t_fail >= v.deadline - TOL:
+        if s.t_decide >= v.deadline - TOL:
             return True
         ta = v.sleep_end_time(s)
         return ta is not None and ta > v.deadline - TOL
@@ -223,6 +225,9 @@ def run_ending(v: View):
     ('value', seg) | ('aborted', seg|None) | ('deferred', seg) | ('stopped', seg) | ('special', seg) | ('none', None)"""
     if v.pre_poll_true:
         return "aborted", None
+    hook_abort = any(e[0] == "fault" and e[1] in ("astart", "aend") and e[2] == "AbortRetryError" for e in v.trace)
+    if hook_abort:
+        return "aborted", (v.segs[-1] if v.segs else None)
     if not v.segs:
         return "none", None
     s = v.segs[-1]
@@ -334,7 +339,7 @@ def o_delay(v: View, stats=None):
             yield "strategy-wrong-class", f"attempt {s.i} failed with {s.klass}: strategy saw {klassname}"
         if not eq_num(prev, prev_applied):
             yield "strategy-wrong-prev-sleep", f"attempt {s.i}: strategy saw prev_sleep_s={prev!r}, previously applied delay was {prev_applied!r}"
-        rem_true = v.deadline - s.t_fail
+        rem_true = v.deadline - t  # remaining time at the instant the strategy was consulted
         if entry in legacy:
             if stats is not None:
                 stats["legacy_calls"] = stats.get("legacy_calls", 0) + 1
@@ -609,9 +614,9 @@ def o_events(v: View, stats=None):
     cfg = v.cfg
     kind, val = v.final
     how, s = run_ending(v)
-    if how == "special" or how == "none" and not v.pre_poll_true:
-        return
     rejected = any(e[0] == "br.allow" and not e[1] for e in v.trace)
+    if how == "special" or (how == "none" and not v.pre_poll_true and not rejected):
+        return
     mets = v.all_metric()
     logs = [e for e in v.trace if e[0] == "log"]
     opname = cfg.get("operation")
@@ -664,6 +669,8 @@ def o_events(v: View, stats=None):
                 delivered = v.reported_reason()
                 if kind == "raise" and tname(val) == "AbortRetryError":
                     delivered = "ABORTED"
+                if delivered is None and v.is_execute and kind == "return" and tname(val) == "RetryOutcome" and not val.ok:
+                    delivered = "<none>"  # execute() delivers its stop reason through the outcome: a missing one disagrees with the event
                 if delivered is not None and r != delivered:
                     yield "terminal-reason-differs-from-delivery", f"terminal event {t[1]} stop_reason={r}; caller got {delivered}"
                 if r is None or r not in EVENT_REASON.get(t[1], ()):
@@ -752,6 +759,9 @@ def o_events(v: View, stats=None):
     got = [(m[1], dict(m[4]).get("state"), dict(m[4]).get("class")) for m in v.all_metric(include_breaker=True) if m[1] in BREAKER_EVENTS]
     if spy and not v.sc.get("no_hooks") and want != got:
         yield "breaker-events-differ-from-transitions", f"breaker said {want}; events {got}"
+    for e in spy:
+        if e[0] == "br.allow" and e[3] is not None and len(e) > 5 and e[2] != e[5]:
+            yield "breaker-event-state-is-not-the-breakers-state", f"allow() reported state {e[2]!r} with event {e[3]} while the breaker's state is {e[5]!r}"
     if stats is not None:
         stats["streams_checked:" + how] = stats.get("streams_checked:" + how, 0) + 1
 
